@@ -493,6 +493,8 @@ impl ActiveRelayActor {
                     };
                     match msg {
                         ActiveRelayMessage::SetHomeRelay(is_home) => {
+                            #[cfg(iroh_verif)]
+                            self.verif_recv_set_home(is_home, false).await;
                             self.set_home_relay(is_home);
                         }
                         ActiveRelayMessage::CheckConnection { .. } => {}
@@ -621,6 +623,8 @@ impl ActiveRelayActor {
                     };
                     match msg {
                         ActiveRelayMessage::SetHomeRelay(is_home) => {
+                            #[cfg(iroh_verif)]
+                            self.verif_recv_set_home(is_home, true).await;
                             self.set_home_relay(is_home);
                             // We are in `run_connected`, so if we just became the home
                             // relay, publish `Connected` (the `RelayActor` only sets
@@ -1128,6 +1132,117 @@ impl HomeRelayWatch {
     }
 }
 
+#[cfg(iroh_verif)]
+impl ActiveRelayActor {
+    /// Pause point and event before a `SetHomeRelay` message is handled.
+    async fn verif_recv_set_home(&self, is_home: bool, connected: bool) {
+        iroh_dns::verif::pause_async(&format!("c26.recv_set_home:{}", self.url)).await;
+        iroh_dns::verif::event(
+            "c26.recv_set_home",
+            &[
+                ("actor", self.url.to_string()),
+                ("is_home", is_home.to_string()),
+                ("connected", connected.to_string()),
+            ],
+        );
+    }
+}
+
+/// A running [`RelayActor`] with its [`HomeRelayWatch`], for `crate::verif_hooks_netrep`.
+#[cfg(iroh_verif)]
+struct VerifRelayActor {
+    my_relay: HomeRelayWatch,
+    sender: mpsc::Sender<RelayActorMessage>,
+    cancel_token: CancellationToken,
+    _task: n0_future::task::AbortOnDropHandle<()>,
+    _datagram_recv: mpsc::Receiver<RelayRecvDatagram>,
+    _datagram_send: mpsc::Sender<RelaySendItem>,
+}
+
+#[cfg(iroh_verif)]
+impl VerifRelayActor {
+    /// Spawns a [`RelayActor`] on the current tokio runtime.
+    fn spawn(
+        secret_key: SecretKey,
+        tls_config: rustls::ClientConfig,
+        relay_map: RelayMap,
+    ) -> Self {
+        let my_relay = HomeRelayWatch::default();
+        let config = Config {
+            my_relay: my_relay.clone(),
+            secret_key,
+            dns_resolver: DnsResolver::new(),
+            proxy_url: None,
+            ipv6_reported: Arc::new(AtomicBool::new(false)),
+            tls_config,
+            metrics: Default::default(),
+            relay_map,
+        };
+        let (datagram_recv_tx, datagram_recv_rx) = mpsc::channel(16);
+        let (datagram_send_tx, datagram_send_rx) = mpsc::channel(16);
+        let (sender, receiver) = mpsc::channel(16);
+        let cancel_token = CancellationToken::new();
+        let actor = RelayActor::new(config, datagram_recv_tx, cancel_token.clone());
+        let task = n0_future::task::spawn(async move { actor.run(receiver, datagram_send_rx).await });
+        Self {
+            my_relay,
+            sender,
+            cancel_token,
+            _task: n0_future::task::AbortOnDropHandle::new(task),
+            _datagram_recv: datagram_recv_rx,
+            _datagram_send: datagram_send_tx,
+        }
+    }
+
+    /// Sends `RelayActorMessage::NetworkChange` with a report whose preferred relay is `preferred`.
+    async fn network_change(&self, preferred: Option<RelayUrl>) -> bool {
+        let report = Report {
+            preferred_relay: preferred,
+            ..Default::default()
+        };
+        self.sender
+            .send(RelayActorMessage::NetworkChange { report })
+            .await
+            .is_ok()
+    }
+
+    /// Cancels the actor.
+    fn shutdown(&self) {
+        self.cancel_token.cancel();
+    }
+}
+
+/// What `crate::verif_hooks_netrep` gets for a spawned [`RelayActor`]: its watchable, a
+/// function delivering a net report with the given preferred relay, and a shutdown function
+/// (closures, because the actor types are private to this module).
+#[cfg(iroh_verif)]
+pub(crate) type VerifRelayActorParts = (
+    HomeRelayWatch,
+    Box<dyn Fn(Option<RelayUrl>) -> Pin<Box<dyn Future<Output = bool> + Send>> + Send + Sync>,
+    Box<dyn Fn() + Send + Sync>,
+);
+
+#[cfg(iroh_verif)]
+impl HomeRelayWatch {
+    /// Spawns a real [`RelayActor`] on the current tokio runtime (see [`VerifRelayActor`]).
+    pub(crate) fn verif_spawn_relay_actor(
+        secret_key: SecretKey,
+        tls_config: rustls::ClientConfig,
+        relay_map: RelayMap,
+    ) -> VerifRelayActorParts {
+        let actor = Arc::new(VerifRelayActor::spawn(secret_key, tls_config, relay_map));
+        let watch = actor.my_relay.clone();
+        let a = actor.clone();
+        let network_change = Box::new(move |preferred: Option<RelayUrl>| {
+            let a = a.clone();
+            Box::pin(async move { a.network_change(preferred).await })
+                as Pin<Box<dyn Future<Output = bool> + Send>>
+        });
+        let shutdown = Box::new(move || actor.shutdown());
+        (watch, network_change, shutdown)
+    }
+}
+
 impl RelayActor {
     pub(super) fn new(
         config: Config,
@@ -1255,6 +1370,18 @@ impl RelayActor {
     }
 
     async fn on_network_change(&mut self, report: Report) {
+        #[cfg(iroh_verif)]
+        iroh_dns::verif::event(
+            "c26.network_change",
+            &[(
+                "preferred",
+                report
+                    .preferred_relay
+                    .as_ref()
+                    .map(|u| u.to_string())
+                    .unwrap_or_else(|| "none".to_string()),
+            )],
+        );
         let prev = self.config.my_relay.get();
         let prev_url = prev.as_ref().map(RelayStatus::url);
         if report.preferred_relay.as_ref() == prev_url {
